@@ -334,6 +334,8 @@ impl<'tokens> Parser<'tokens> {
     }
 
     fn peek_raw(&self) -> Option<TokenKind> {
+        #[cfg(capy_verif)]
+        crate::verif::step();
         self.tokens.get_kind(self.token_idx)
     }
 
